@@ -4,7 +4,8 @@
 (* (ACTION_CONSTRAINT EmitEdge) as JSON for the replay on the real code.      *)
 EXTENDS SimplexTree, Json
 
-CONSTANTS AssignInf,  \* may assign_filtration give +infinity (C03 thorough)
+CONSTANTS MaxBlocked,  \* Mode = "blk": at most that many blocked simplices per expansion
+          AssignInf,  \* may assign_filtration give +infinity (C03 thorough)
           FlagDims,   \* dmax arguments of insert_edge_as_flag
           Mode        \* "all" | "flag" : which actions are enabled
 
@@ -70,7 +71,16 @@ NextFilt ==
   \/ MakeNonDecreasing
   \/ \E f \in Vals \cup {INF} : PruneAboveFiltration(f)
   \/ \E s \in Universe : RemoveMaximal(s)
-Next == IF Mode = "flag" THEN NextFlag ELSE IF Mode = "filt" THEN NextFilt ELSE NextAll
+(* C04, blockers on a candidate set with three or more members: needs 5 vertices.  Cases style: a nearly complete *)
+(* graph on all of V (at most one edge missing), then ONE expansion with at most MaxBlocked blocked simplices.    *)
+AllEdgesV == {e \in SUBSET V : Cardinality(e) = 2}
+BlkGraphs == LET f == CHOOSE x \in Vals : TRUE IN
+             {[s \in {{v} : v \in V} \cup (AllEdgesV \ R) |-> f] : R \in {R \in SUBSET AllEdgesV : Cardinality(R) <= 1}}
+SmallBlocked == {B \in SUBSET HighSimplices : Cardinality(B) <= MaxBlocked}
+NextBlk ==
+  \/ K = <<>> /\ \E G \in BlkGraphs : InsertGraph(G)
+  \/ K # <<>> /\ \E d \in 2..MaxDim, B \in SmallBlocked : ExpansionWithBlockers(d, B)
+Next == IF Mode = "flag" THEN NextFlag ELSE IF Mode = "filt" THEN NextFilt ELSE IF Mode = "blk" THEN NextBlk ELSE NextAll
 Spec == Init /\ [][Next]_<<K, act>>
 
 View == K
